@@ -491,6 +491,21 @@ pub fn long_tokens() -> Vec<Vec<u8>> {
             out.push(format!("\"{}{tail}\"", q.to_uppercase().replace("\\U", "\\u")).into_bytes());
         }
     }
+    // escape x offset: every escape form (decoding to 1, 2, 3, 4 bytes; a surrogate pair; raw
+    // multi-byte characters) after every number 0..=600 of plain bytes — whatever the size of a
+    // decoder's internal chunk, some offset puts the escape across its end — in the three string
+    // positions
+    for k in 0..=600usize {
+        for esc in ["\\n", "\\\\", "\\\"", "\\$", "\\u0041", "\\u00e9", "\\u20ac", "\\ud83d\\ude00", "\\ud83d", "é", "€", "😀"] {
+            let pad = "a".repeat(k);
+            out.push(format!("\"{pad}{esc}b\"").into_bytes());
+            if k % 7 == 0 || (60..=130).contains(&k) || (250..=260).contains(&k) || (505..=520).contains(&k) {
+                out.push(format!("@r \"{pad}{esc}\"").into_bytes());
+                out.push(format!("Bin(\"{pad}{esc}\")").into_bytes());
+                out.push(format!("`{pad}{}`", if esc.starts_with("\\$") || esc == "\\\"" { "\\`" } else { esc }).into_bytes());
+            }
+        }
+    }
     out
 }
 
@@ -770,7 +785,7 @@ fn reader_case(doc: &[u8], bound: usize, local: &mut Local) {
 
 // ------------------------------------------------------------------------------ child / parent
 
-fn run_input(job: &str, inp: &Input, local: &mut Local) {
+fn run_input(job: &str, ord: u64, tier: Tier, inp: &Input, local: &mut Local) {
     local.eval();
     let (r, b) = match inp {
         Input::Zinc(b) => (zinc_entries(b), b),
@@ -791,7 +806,13 @@ fn run_input(job: &str, inp: &Input, local: &mut Local) {
         }
         Err((entry, p)) => {
             local.outcome("panic");
-            local.fail(&format!("panic:{entry}:{}", panic_class(&p)), describe_input(job, inp), p);
+            // a generated (long) input is named by job + ordinal + tier, like the parent does
+            let mut d = describe_input(job, inp);
+            if d.get("generated").is_some() {
+                d["ordinal"] = json!(ord);
+                d["tier"] = json!(tier.name());
+            }
+            local.fail(&format!("panic:{entry}:{}", panic_class(&p)), d, p);
         }
     }
 }
@@ -803,14 +824,15 @@ pub fn child(tier: Tier, job: String, start: u64, end: u64, ctx: &mut ChildCtx, 
         let b = unhex(hx);
         ctx.begin(0);
         let inp = if fmt == "zinc" { Input::Zinc(b) } else { Input::Json(b) };
-        run_input("one", &inp, local);
+        run_input("one", 0, tier, &inp, local);
         return;
     }
     if let Some(rest) = job.strip_prefix("onegen:") {
         // replay of a generated (nesting) case: "onegen:<job>:<ordinal>"
         let (j, o) = rest.split_once(':').unwrap();
         ctx.begin(0);
-        run_input(j, &job_input(j, tier, o.parse().unwrap()), local);
+        let o: u64 = o.parse().unwrap();
+        run_input(j, o, tier, &job_input(j, tier, o), local);
         return;
     }
     for ord in start..end {
@@ -822,7 +844,7 @@ pub fn child(tier: Tier, job: String, start: u64, end: u64, ctx: &mut ChildCtx, 
                 local.nontrivial(&hex(&doc));
             }
         } else {
-            run_input(&job, &job_input(&job, tier, ord), local);
+            run_input(&job, ord, tier, &job_input(&job, tier, ord), local);
         }
     }
 }
@@ -835,7 +857,7 @@ pub fn child_params(job: &str) -> (u64, u64, usize) {
 
 pub fn run(tier: Tier) -> i32 {
     let mut run = Run::new("C03", tier, "fault_enumeration");
-    run.rule = "inputs: every byte string <= 2/3 over all 256 bytes, every string <= 4/5 over the 27-byte token alphabet (Zinc) and a 23-byte JSON alphabet; every prefix, substitution (by each alphabet byte), deletion, duplication and insertion at every position of grammar documents (canonical and 1-deviation spellings of one value per shape class + containers); every one of the 256 byte values substituted at and inserted before every position of the short documents (Zinc <= 14/40 bytes, Hayson <= 24/48 bytes); token-boundary splices of 40 documents; structural damage (rows with 0..n+3 cells, unterminated constructs at every position, header damage; Hayson: every kind tag with every member drawn from 19 fields of right and wrong JSON types, grid parts of the wrong type); long tokens (24 token kinds x every body length 1..72, 100, 127..129, 255..257, 300, 1000, 4096, plain and with a 2-/3-/4-byte character or 0xFF in the middle / at the end, alone and inside list, dict, grid; timestamps with the wall clock in the skipped / repeated hour of 18 zones under agreeing and disagreeing offsets (Zinc and Hayson); flat inputs of 20 000 / 100 000 / 300 000 elements (lists, dicts, rows, meta tags, escapes, digits, sibling containers; Zinc and Hayson); long tag / column names, 1..1000 columns, 1..1000 empty cells; all sequences of <= 3 \\uXXXX escapes over 11 code units incl. every surrogate combination); nesting depth 1..256 and 2^k(+1) up to 131072 and 10^5 for 12 nesting patterns on 8 MiB and 2 MiB stacks; reader scripts (deliver/Interrupted/error/EOF/1 byte at every read call) with <= 2 deviations (<= 4 for documents <= 12 bytes) over 41 hand-written documents (every construct with blanks, line endings, escapes, look-ahead) + 150/2000 documents spread over the grammar set. Entry points: from_str, Parser::make+parse_value, parse_grid, parse_grid_iterator (driven to the first error), serde_json from_str/from_slice for Value and 16 typed values, from_value. non-trivial = distinct input of >= 2 bytes (first 64 bytes)".into();
+    run.rule = "inputs: every byte string <= 2/3 over all 256 bytes, every string <= 4/5 over the 27-byte token alphabet (Zinc) and a 23-byte JSON alphabet; every prefix, substitution (by each alphabet byte), deletion, duplication and insertion at every position of grammar documents (canonical and 1-deviation spellings of one value per shape class + containers); every one of the 256 byte values substituted at and inserted before every position of the short documents (Zinc <= 14/40 bytes, Hayson <= 24/48 bytes); token-boundary splices of 40 documents; structural damage (rows with 0..n+3 cells, unterminated constructs at every position, header damage; Hayson: every kind tag with every member drawn from 19 fields of right and wrong JSON types, grid parts of the wrong type); long tokens (24 token kinds x every body length 1..72, 100, 127..129, 255..257, 300, 1000, 4096, plain and with a 2-/3-/4-byte character or 0xFF in the middle / at the end, alone and inside list, dict, grid; timestamps with the wall clock in the skipped / repeated hour of 18 zones under agreeing and disagreeing offsets (Zinc and Hayson); flat inputs of 20 000 / 100 000 / 300 000 elements (lists, dicts, rows, meta tags, escapes, digits, sibling containers; Zinc and Hayson); long tag / column names, 1..1000 columns, 1..1000 empty cells; all sequences of <= 3 \\uXXXX escapes over 11 code units incl. every surrogate combination; every escape form — decoding to 1 / 2 / 3 / 4 bytes, a lone and a paired surrogate, raw multi-byte characters — after every number 0..600 of plain bytes in Str, Ref display name, XStr and Uri); nesting depth 1..256 and 2^k(+1) up to 131072 and 10^5 for 12 nesting patterns on 8 MiB and 2 MiB stacks; reader scripts (deliver/Interrupted/error/EOF/1 byte at every read call) with <= 2 deviations (<= 4 for documents <= 12 bytes) over 41 hand-written documents (every construct with blanks, line endings, escapes, look-ahead) + 150/2000 documents spread over the grammar set. Entry points: from_str, Parser::make+parse_value, parse_grid, parse_grid_iterator (driven to the first error), serde_json from_str/from_slice for Value and 16 typed values, from_value. non-trivial = distinct input of >= 2 bytes (first 64 bytes)".into();
     run.assume("a case that does not finish within 6 s is a hang (cases take microseconds); hangs and crashes are confirmed by re-running the case in a fresh single-step child");
     run.assume("each case runs in a child process: abort, stack overflow and allocation failure are observed through the exit status");
     crate::engine::quiet_panics();
@@ -846,6 +868,7 @@ pub fn run(tier: Tier) -> i32 {
             let mut d = describe_input(name, &inp);
             if d.get("generated").is_some() {
                 d["ordinal"] = json!(ord);
+                d["tier"] = json!(tname);
             }
             d
         };
